@@ -31,6 +31,7 @@ type Contract struct {
 	Entry    []*EntryGhost
 	Exit     []*EntryGhost
 	Assumed  string
+	AllocLimit *Expr
 }
 
 type GhostParam struct {
@@ -103,7 +104,7 @@ var clauseKeywords = map[string]bool{
 	"loop": true, "modifies": true, "ghost": true, "safety": true, "pure": true,
 	"pred": true, "ghostvar": true, "at": true, "trusted": true, "may_panic": true,
 	"let": true, "specfun": true, "axiom": true, "noinline": true, "end": true,
-	"entry": true, "modset": true, "exit": true, "global": true, "assumed": true,
+	"entry": true, "modset": true, "exit": true, "global": true, "assumed": true, "alloc_limit": true,
 }
 
 // EntryGhost is a ghost assignment executed when the function is entered.
@@ -301,6 +302,14 @@ func parseContracts(path string) (*Contracts, error) {
 				cur.MayPanic = true
 			case "trusted":
 				cur.Trusted = r.text
+			case "alloc_limit":
+				// alloc_limit <expr>: every make([]T, n) in the body needs n <= expr
+				// (evaluated in the entry state) — "never allocate beyond the file"
+				ex, err := parseExpr(r.text)
+				if err != nil {
+					return nil, fmt.Errorf("%s:%d: %v", path, r.line, err)
+				}
+				cur.AllocLimit = ex
 			case "assumed":
 				// in-package contract used at call sites but not verified against
 				// its body (outside the generator's reach); listed as an assumption
